@@ -15,6 +15,8 @@ import argparse
 from traceback import print_exc
 import gzip
 
+from .file_utils import dump_json_atomically
+
 logger = logging.getLogger('IsoQuant')
 
 
@@ -366,8 +368,7 @@ def convert_db(gtf_filename, genedb_filename, convert_fn, args):
         'db_mtime': os.path.getmtime(genedb_filename),
         'complete_db': args.complete_genedb
     }
-    with open(args.db_config_path, 'w') as f_out:
-        json.dump(converted_gtfs, f_out)
+    dump_json_atomically(converted_gtfs, args.db_config_path)
     return gtf_filename, genedb_filename
 
 
